@@ -62,7 +62,7 @@ type Conn struct {
 // NodeSpec describes one node (leaf, batch or flow).
 type NodeSpec struct {
 	ID   int    `json:"id"`
-	Kind string `json:"kind"` // base plain retry fb retryfb func batch flow
+	Kind string `json:"kind"` // base plain retry fb retryfb func batch flow zst (pointer to a zero-size type)
 
 	// func / batch: how each phase function is given: R (Result style), A (Any
 	// style), - (not set). Three characters: prep, exec, post.
@@ -176,7 +176,7 @@ func (n *NodeSpec) configRun(r int) config {
 // retryable: does the framework see retry settings on this kind?
 func (n *NodeSpec) retryable() bool {
 	switch n.Kind {
-	case "plain", "fb":
+	case "plain", "fb", "zst":
 		return false
 	}
 	return true
@@ -185,7 +185,7 @@ func (n *NodeSpec) retryable() bool {
 // hasFallback: is there a user fallback whose outcome is scripted?
 func (n *NodeSpec) hasFallback() bool {
 	switch n.Kind {
-	case "plain", "retry":
+	case "plain", "retry", "zst":
 		return false
 	case "fb", "retryfb":
 		return true
